@@ -98,7 +98,13 @@ const addedImportPath = "example.com/added/newpkg"
 
 // withAddedImport gives the change a '+import' line (no guard: it applies to every file).
 func withAddedImport(c *gen.Change) {
-	c.Guards = []gen.Line{gen.L('+', `import "`+addedImportPath+`"`), gen.L(' ', "")}
+	var gs []gen.Line
+	for _, l := range c.Guards { // keep a package guard; the blank line goes last
+		if l.Text != "" {
+			gs = append(gs, l)
+		}
+	}
+	c.Guards = append(gs, gen.L('+', `import "`+addedImportPath+`"`), gen.L(' ', ""))
 }
 
 // addedImports lists the imports the changes' '+import' lines add.
